@@ -4,15 +4,15 @@ ENTRY = {'coq_dir': 'C07',
  'harness': 'c07',
  'cases': {'quick': 1500, 'thorough': 30000},
  'harness_timeout': 2400,
- 'consts': ['CONN_EXIT_SITES'],
+ 'consts': ['CONN_EXIT_SITES', 'WS_EXIT_SITES', 'QUIC_EXIT_SITES'],
  'rule': 'two streams from one seed. (i) report level, one case per --cases: 2-10 operations on the real ProtocolSet built the way '
          'TransportHandle::protocol_set builds it (1-5 protocols): kill a protocol receiver / the manager receiver, '
          'report_connection_established, report_connection_closed, report_substream_open_failure, and report_connection_closed with one '
          "protocol channel full (is the manager told before the protocols are served?); after every operation the result and everything "
          'that arrived on every channel are compared with the extracted model. (ii) end to end, one scenario per 12 (quick) / 15 (thorough) '
-         'report-level cases, 24 in parallel: two real nodes over loopback TCP through a cuttable proxy, each with 1-3 common user '
+         'report-level cases, 24 in parallel: two real nodes over loopback TCP or (one in three) WebSocket through a cuttable proxy, each with 1-3 common user '
          'protocols, one user protocol only it has, a notification and a request-response protocol; fault script of 1-9 steps: a protocol '
-         'exits / a handle is dropped (before or after connect), connect, open a substream (also for a protocol that has exited on the other '
+         'exits / a handle is dropped (before or after connect, or during the handshake: either order is accepted, the outcome is handed to the model), connect, open a substream (also for a protocol that has exited on the other '
          'side, also unsupported by the other side, also open-and-exit-at-once), force-close, cut the link, idle expiry (keep-alive 1 s), '
          'shut the remote node down, re-connect, dial a dead node; after every step (settled: first event, then 200 ms of quiet) the new '
          'events of every observer (application and every user protocol of both nodes) are compared with the model, at the end both '
@@ -25,11 +25,13 @@ ENTRY = {'coq_dir': 'C07',
                'id-respecting history: the application sees ConnectionClosed exactly when the last live connection of the peer is gone, only '
                'for a connection it was told about, and the peer can then be dialed; and the node composition discharges the manager\'s '
                'environment assumption for every Closed/AcceptDone the tasks generate. The exit table of the model is proved equal to the list '
-               'of `?`/`return`/`Ok(true)` sites extracted from tcp/connection.rs on every run. Known finding F-C07b (class 1) is excluded.',
- 'level_note': 'Trusted: Coq kernel, extraction, harness, the regex-level extractor. TCP only (the websocket and quic connection loops have '
-               'the same structure and still have the `?` exits; they are neither repaired nor tied). Thread interleavings between the '
+               'of `?`/`return`/`Ok(true)` sites extracted from tcp/connection.rs on every run, and likewise the separate tables of the one-function '
+               'websocket and quic loops. Known finding F-C07b (class 1) is excluded.',
+ 'level_note': 'Trusted: Coq kernel, extraction, harness, the regex-level extractor. TCP and WebSocket are exercised end to end by ./check; the '
+               'QUIC loop is repaired and tied by its exit table, its end-to-end stream is run by hand (tools/c07_quic_stream.sh: the harness must '
+               'be built with its optional quic feature; no link cut and no remote kill there). Thread interleavings between the '
                'connection task and the manager loop appear only as event orders; `.await` on a full protocol channel is not modelled (only '
-               'probed for ordering); a protocol exiting *during* the handshake is not scripted (racy); try_get_permit failing is modelled and '
+               'probed for ordering); try_get_permit failing is modelled and '
                'tied by the skeleton but cannot be provoked end to end.',
  'trusted_base': ['tools/gen_conn_exits.py: regex-level extractor of the exit sites of start / handle_yamux_substream / '
                   'handle_negotiated_substream / handle_protocol_command (blanked strings and comments, matched braces); it can mis-classify a '
